@@ -74,9 +74,16 @@ func runC16(t *testing.T, c simrt.Chooser, o Opts) *Out {
 	// the target list cannot be opened: request generation fails at the start of the scan; the error
 	// is reported and the scan still ends (after its exit delay at the latest)
 	missingFile := false
-	if _, ok := sc.World.Files[targetsFn]; ok && !flood && p.pct("missingfile", 3) {
-		delete(sc.World.Files, targetsFn)
-		missingFile = true
+	vanishingFile := false
+	if _, ok := sc.World.Files[targetsFn]; ok && !flood && p.pct("missingfile", 4) {
+		if sc.Spec.Mode == "ips-ports" && len(sc.Spec.portList()) >= 2 && p.bool("vanishes") {
+			// the address list is opened once per port: it is there for the first port and gone for the next
+			sc.World.FileFault = map[string]FileFault{targetsFn: {ErrAt: -1, OpenOnly: 1}}
+			vanishingFile = true
+		} else {
+			delete(sc.World.Files, targetsFn)
+			missingFile = true
+		}
 		simrtFault(out, "target-file-missing")
 	}
 	out.Scenario = sc
@@ -87,6 +94,15 @@ func runC16(t *testing.T, c simrt.Chooser, o Opts) *Out {
 	out.Nontrivial = len(cr.Wire) >= 1
 	out.Key = fmt.Sprintf("%v/%s/%s/%d/%016x", sc.Spec.Cmd, sc.Spec.Mode, sc.ExitDelay, len(cr.Wire), cr.Res.Hash)
 	if crashOrHang(out, "C16", cr) {
+		return out
+	}
+	if vanishingFile {
+		if cr.ExecErr == "" && len(cr.Errs) == 0 {
+			out.violate("C16.silent-failure", sc.Spec.Kind+"/vanished", "argv %v: the target list could not be opened again for the second port, but neither an error record nor a failure status was produced", sc.World.Argv)
+		}
+		if cr.ReturnT > time.Duration(1+len(sc.Spec.Ports)/200)*sc.exitDelay+time.Second {
+			out.violate("C16.late-exit", sc.Spec.Kind+"/vanished-file", "argv %v: returned at %v (exit delay %v)", sc.World.Argv, cr.ReturnT, sc.exitDelay)
+		}
 		return out
 	}
 	if missingFile {
